@@ -1,0 +1,25 @@
+//go:build verif
+
+package group
+
+import (
+	"github.com/bandprotocol/chain/v3/cylinder/client"
+	"github.com/bandprotocol/chain/v3/cylinder/store"
+	"github.com/bandprotocol/chain/v3/pkg/tss"
+	"github.com/bandprotocol/chain/v3/x/tss/types"
+)
+
+// GetOwnPrivKeyForVerif exposes getOwnPrivKey to the verification harness (build tag verif only).
+func GetOwnPrivKeyForVerif(dkg store.DKG, groupRes *client.GroupResult) (tss.Scalar, []types.Complaint, error) {
+	return getOwnPrivKey(dkg, groupRes)
+}
+
+// GetSecretShareForVerif exposes getSecretShare to the verification harness (build tag verif only).
+func GetSecretShareForVerif(
+	receiverID tss.MemberID,
+	senderID tss.MemberID,
+	privKeyReceiver tss.Scalar,
+	groupRes *client.GroupResult,
+) (tss.Scalar, *types.Complaint, error) {
+	return getSecretShare(receiverID, senderID, privKeyReceiver, groupRes)
+}
